@@ -6,7 +6,10 @@ import (
 	"fmt"
 	"go/token"
 	"go/types"
+	"os"
+	"runtime/debug"
 	"sort"
+	"strconv"
 	"strings"
 
 	"golang.org/x/tools/go/ssa"
@@ -82,6 +85,34 @@ var epochCounter int
 // stableHeapNames: heap components of fields declared immutable or stable.
 var stableHeapNames = map[string]bool{}
 
+// stableOwner: for the components of `stable` and `private` fields (written only by their own
+// package), the path of that package. A call to a known function of that package, or of a package
+// that (transitively) imports it, may write them; calls elsewhere and callbacks may not.
+var stableOwner = map[string]string{}
+
+// havocPkg: the package of the known callee on whose behalf the heap is being havoced (nil for
+// function values, interface calls and go statements)
+var havocPkg *types.Package
+
+// havocExcept: the components a `keeps stable except ...` callee may write
+var havocExcept []string
+
+func reachesPkg(from *types.Package, path string, seen map[*types.Package]bool) bool {
+	if from == nil || seen[from] {
+		return false
+	}
+	seen[from] = true
+	if from.Path() == path {
+		return true
+	}
+	for _, im := range from.Imports() {
+		if reachesPkg(im, path, seen) {
+			return true
+		}
+	}
+	return false
+}
+
 func (h *Heap) snapshot() *Heap {
 	n := &Heap{m: make(map[string]*Term, len(h.m)), epoch: h.epoch}
 	for k, v := range h.m {
@@ -119,23 +150,24 @@ func (h *Heap) get(name string, sort Sort) *Term {
 }
 
 type State struct {
-	heap      *Heap
-	pc        []*Term
-	frames    []*Frame
-	trace     []Event
-	ghost     map[string]*Val // ghost bindings from trace ... bind
-	locks     []*Term         // lock ids touched on this path
-	fresh     map[*Term]bool  // refs allocated on this path
-	from      string
-	steps     int
-	dead      bool
-	callNames map[string]nameBind
-	prevHeap  *Heap
-	prevNames map[string]nameBind
-	lockSnap  map[*Term]*Heap
-	stackObjs []stackObj
-	visits    map[*ssa.BasicBlock]int
-	escaped   map[*Term]bool // fresh references that were stored into the heap or passed to a call
+	heap        *Heap
+	pc          []*Term
+	frames      []*Frame
+	trace       []Event
+	ghost       map[string]*Val // ghost bindings from trace ... bind
+	locks       []*Term         // lock ids touched on this path
+	fresh       map[*Term]bool  // refs allocated on this path
+	from        string
+	steps       int
+	dead        bool
+	callNames   map[string]nameBind
+	prevHeap    *Heap
+	exitChecked bool // the loop exit clauses of the path's loop have been checked
+	prevNames   map[string]nameBind
+	lockSnap    map[*Term]*Heap
+	stackObjs   []stackObj
+	visits      map[*ssa.BasicBlock]int
+	escaped     map[*Term]bool // fresh references that were stored into the heap or passed to a call
 }
 
 type stackObj struct {
@@ -144,7 +176,7 @@ type stackObj struct {
 }
 
 func (st *State) clone() *State {
-	n := &State{from: st.from, steps: st.steps, prevHeap: st.prevHeap, prevNames: st.prevNames}
+	n := &State{from: st.from, steps: st.steps, prevHeap: st.prevHeap, prevNames: st.prevNames, exitChecked: st.exitChecked}
 	n.heap = st.heap.snapshot()
 	n.pc = append([]*Term(nil), st.pc...)
 	n.frames = make([]*Frame, len(st.frames))
@@ -201,6 +233,9 @@ func (st *State) assume(t *Term) {
 	}
 	if t == False {
 		st.dead = true
+		if os.Getenv("GOWP_DEBUG") != "" {
+			fmt.Fprintf(os.Stderr, "debug: path dies (assume false)\n%s\n", debug.Stack())
+		}
 	}
 	st.pc = append(st.pc, t)
 }
@@ -261,6 +296,8 @@ type fnCtx struct {
 	short       string // pkgname.FuncKey
 	headers     map[*ssa.BasicBlock]int
 	hdrList     []*ssa.BasicBlock
+	loopEnds    []token.Pos
+	hasExit     bool
 	siteOrd     map[ssa.Instruction]int
 	paths       int
 	writes      map[string]bool // heap arrays written anywhere in the function (for loop havoc)
@@ -467,6 +504,13 @@ func (e *Engine) newFnCtx(fn *ssa.Function, con *Contract) *fnCtx {
 	x := &fnCtx{eng: e, fn: fn, con: con, key: pkg + "." + key, short: shortPkg(pkg) + "." + key}
 	x.headers = map[*ssa.BasicBlock]int{}
 	x.hdrList = findLoopHeaders(fn)
+	if con != nil {
+		for _, cl := range con.Clauses {
+			if cl.Kind == "exit" && cl.appliesTo(e.prop) {
+				x.hasExit = true
+			}
+		}
+	}
 	for i, h := range x.hdrList {
 		x.headers[h] = i + 1
 	}
@@ -527,7 +571,7 @@ func (x *fnCtx) addVC(st *State, fnShort, kind string, ord int, sub string, goal
 	if goal == True {
 		// decided by the generator's simplifier: recorded, discharged syntactically
 		switch kind {
-		case "post", "at_call", "at_store", "only_calls", "inv_init", "inv_keep", "step", "trace_step", "pre", "monitor", "lemma", "lockpost":
+		case "post", "at_call", "at_store", "only_calls", "inv_init", "inv_keep", "step", "exit", "trace_step", "pre", "monitor", "lemma", "lockpost":
 			e.noteTrivial(name, fnShort, kind, ord, desc)
 		}
 		return
@@ -543,7 +587,7 @@ func (x *fnCtx) addVC(st *State, fnShort, kind string, ord int, sub string, goal
 	}
 	budget := 16
 	for _, g := range splitGoal(goal, &budget) {
-		vc := &VC{Assumps: append([]*Term(nil), st.pc...), Goal: g, From: st.from}
+		vc := &VC{Assumps: append([]*Term(nil), st.pc...), Goal: g, From: st.from, Note: desc}
 		ob.VCs = append(ob.VCs, vc)
 	}
 }
@@ -774,6 +818,12 @@ func (x *fnCtx) assumeAllocated(st *State, r *Term) {
 	// a value read from a heap component that still has its entry value existed at entry
 	if r.Kind == KBuiltin && r.Op == "select" && r.Args[0].Kind == KSym && strings.HasPrefix(r.Args[0].Op, "H.") && !strings.ContainsAny(r.Args[0].Op, "@!") && len(st.frames) > 0 && st.frames[0].oldHeap != nil {
 		alloc = hget(st.frames[0].oldHeap, "$alloc", ArrSort(SInt, SBool))
+	} else if r.Kind == KBuiltin && r.Op == "select" && r.Args[0].Kind == KSym && strings.HasPrefix(r.Args[0].Op, "H.") {
+		if k := strings.LastIndex(r.Args[0].Op, "@"); k > 0 {
+			if n, err := strconv.Atoi(r.Args[0].Op[k+1:]); err == nil && epochAlloc[n] != nil {
+				alloc = epochAlloc[n]
+			}
+		}
 	}
 	st.assume(Or(Eq(r, IntLit(0)), Select(alloc, r)))
 	st.assume(Le(IntLit(0), r))
@@ -927,6 +977,18 @@ func (x *fnCtx) havocAllHeap(st *State, why string, passed ...*Val) {
 			st.heap.m[name] = cur
 		}
 	}
+	// ... except the stable / private components that the known callee's package can reach
+	if havocPkg != nil || len(havocExcept) > 0 {
+		for name, owner := range stableOwner {
+			if (havocPkg != nil && reachesPkg(havocPkg, owner, map[*types.Package]bool{})) || matchesComponent(havocExcept, name) {
+				if srt, ok := heapSorts[name]; ok {
+					st.heap.m[name] = Fresh("H."+name, srt)
+				} else if cur, ok := old.m[name]; ok {
+					st.heap.m[name] = Fresh("H."+name, cur.Sort)
+				}
+			}
+		}
+	}
 	// locals of this function (and variables captured by this closure) are modified by a
 	// callee only if it receives their address in this call (A-ESCAPE)
 	passedRef := map[*Term]bool{}
@@ -966,7 +1028,15 @@ func (x *fnCtx) havocAllHeap(st *State, why string, passed ...*Val) {
 		}
 	}
 	x.writes["*"] = true
+	if a := st.heap.m["$alloc"]; a != nil {
+		epochAlloc[st.heap.epoch] = a
+	}
 }
+
+// epochAlloc: the allocation set as of a whole-heap havoc. A heap component that still is the
+// symbol introduced by that havoc (H.name@N) holds only references that were nil or allocated
+// then, whatever was allocated afterwards.
+var epochAlloc = map[int]*Term{}
 
 func kindLayer(kind string) string {
 	switch kind {
